@@ -743,6 +743,7 @@ enum : unsigned {
     D_APART = 1U << 11, // a partitioned by the predicate (precondition)
     D_SMALL = 1U << 12, // enumerate a only up to length 3 (fixed-arity functions: min/max/clamp/iter_swap ...)
     D_HALVES = 1U << 13, // [0,m) and [m,len) each sorted by the comparator (inplace_merge precondition)
+    D_LEN4  = 1U << 15, // enumerate a only up to length 4 (thorough 5): checks that run a whole family of algorithms per case
     D_LONG  = 1U << 14, // additionally: random inputs around size thresholds (30..40, 63..66, 100, 127..130, 257)
 };
 using CheckFn = std::string (*)(Case const&);
@@ -880,7 +881,7 @@ inline void enum_inner(Entry const& e, Case& c, int LB, bool random_b, vf::Rng* 
                                 continue;
                             }
                             int blo = (dims & D_BSAME) != 0 ? len : 0;
-                            int bhi = (dims & D_BSAME) != 0 ? len : LB;
+                            int bhi = (dims & D_BSAME) != 0 ? len : ((dims & D_LEN4) != 0 ? LB - 1 : LB);
                             for (int bl = blo; bl <= bhi; ++bl) {
                                 long total = 1;
                                 for (int i = 0; i < bl; ++i) { total *= 3; }
@@ -908,6 +909,7 @@ inline void enumerate(vf::Ctx& ctx, Entry const& e, int LA, int LB, int LSAME)
 {
     auto const dims = e.dims;
     int la          = (dims & D_SMALL) != 0 ? std::min(LA, 3) : ((dims & D_BSAME) != 0 ? std::min(LA, LSAME) : LA);
+    if ((dims & D_LEN4) != 0) { la = std::min(la, LSAME); }
     std::uint64_t idx = 0;
     Case c;
     c.algo = e.name;
